@@ -13,6 +13,8 @@ out.append("Each entry is matched by a signature regex (specific input class / c
 out.append("| property | key | what fails | why not repaired |\n|---|---|---|---|")
 WHY = {
  ("C01", "checked-unbound-local"): "needs a redesign of how CHECKED instruments locals that may be unbound (LOAD_FAST of a NULL local); no small safe patch",
+ ("C09", "recursion-frame-blind-local-uses"): "needs frame-aware use tracking in the slicer (uses are keyed by (name, code object id)); not a small patch",
+ ("C09", "recursion-reentrant-return-line"): "same root cause, seen through a helper called from the recursive function (found by the thorough tier)",
  ("C03", "membership-test-raises"): "predicates are observed *before* the instruction executes; reporting nothing for a raising `in` needs a post-hook",
  ("C06", "multi-label-yield-cond"): "representation limit: one `branch_value` per CDG edge; a fix changes the edge data model used by DynaMOSA",
  ("C06", "multi-label-infinite-loop"): "same representation limit",
